@@ -23,7 +23,7 @@ var c07Cases int
 
 func init() {
 	register("C07", &Prop{Gen: c07Gen, Run: c07Run, Init: func() {
-		caseTimeout = 20 * time.Second
+		caseTimeout = 35 * time.Second
 		var err error
 		c07Srv, err = busStart("R", "", nil)
 		if err != nil {
@@ -121,7 +121,7 @@ func c07Run(c string) string {
 	go func() { done <- m.Run() }()
 	zs := 0
 	probes := 0
-	budget := time.Now().Add(12 * time.Second) // all waiting of a case together stays below the per-case watchdog (20 s here)
+	budget := time.Now().Add(18 * time.Second) // all waiting of a case together stays below the per-case watchdog (35 s here, which also covers the 12 s allowed for the stop)
 	settle := func(limit time.Duration) {
 		if rem := time.Until(budget); rem < limit {
 			limit = rem
@@ -185,7 +185,7 @@ func c07Run(c string) string {
 		}
 		acc = append(acc, c08Send(prefix, op))
 	}
-	settle(4 * time.Second)
+	settle(9 * time.Second) // returns as soon as the running clients are the expected ones; generous for a busy machine
 	// record
 	got := c07Running(log)
 	var keys []string
